@@ -6,6 +6,9 @@ open Frappy.Spec.C18
 @[simp] theorem emit_cb (s : St) (e : Ev) : (emit s e).cb = s.cb := rfl
 @[simp] theorem emit_act (s : St) (e : Ev) : (emit s e).act = s.act := rfl
 
+theorem mem_inputsOf (cfg : Cfg) (o j : Nat) : j ∈ inputsOf cfg o ↔ j < cfg.n ∧ cfg.outOf j = o := by
+  simp [inputsOf]
+
 @[simp] theorem deactivate_cb (i : Nat) (s : St) : (deactivate i s).cb = s.cb := by
   unfold deactivate; split <;> rfl
 
@@ -43,33 +46,44 @@ theorem deactivateAll_act (skip : Option Nat) (l : List Nat) : ∀ s j,
       · subst hj; simp [hsk]
       · simp [hj]
 
-theorem activate_cb (n k : Nat) (s : St) : (activate n k s).cb = some k := by
-  simp [activate]
+theorem setCb_cb (o : Nat) (c : Option Nat) (s : St) (o' : Nat) :
+    (setCb o c s).cb o' = if o' = o then c else s.cb o' := rfl
+@[simp] theorem setCb_act (o : Nat) (c : Option Nat) (s : St) : (setCb o c s).act = s.act := rfl
 
-theorem activate_act (n k : Nat) (s : St) (j : Nat) (hj : j < n) : (activate n k s).act j = decide (j = k) := by
-  simp only [activate, emit_act, emit_cb]
+theorem activate_cb (cfg : Cfg) (k : Nat) (s : St) (o : Nat) :
+    (activate cfg k s).cb o = if o = cfg.outOf k then some k else s.cb o := by
+  simp [activate, setCb_cb]
+
+theorem activate_act (cfg : Cfg) (k : Nat) (s : St) (j : Nat) :
+    (activate cfg k s).act j =
+      if j = k then true else if j < cfg.n ∧ cfg.outOf j = cfg.outOf k then false else s.act j := by
+  simp only [activate, emit_act, setCb_act]
   by_cases h : j = k
   · simp [h]
-  · simp only [h, if_false, decide_false]
+  · simp only [h, if_false]
     rw [deactivateAll_act]
     have : some k ≠ some j := by intro e; exact h (Option.some.inj e).symm
-    simp [hj, this]
+    simp [this, mem_inputsOf]
 
-theorem selfControlled_none (n : Nat) (s : St) (h : s.cb = none) : selfControlled n s = s := by
-  unfold selfControlled; rw [h]
-
-theorem selfControlled_cb (n : Nat) (s : St) : (selfControlled n s).cb = none := by
+theorem selfControlled_cb (cfg : Cfg) (o : Nat) (s : St) (o' : Nat) :
+    (selfControlled cfg o s).cb o' = if o' = o then none else s.cb o' := by
   unfold selfControlled
-  cases h : s.cb with
-  | none => simpa using h
-  | some c => simp
+  cases h : s.cb o with
+  | none =>
+    by_cases ho : o' = o
+    · simp [ho, h]
+    · simp [ho]
+  | some c => simp [setCb_cb]
 
-theorem selfControlled_act (n : Nat) (s : St) (c : Nat) (h : s.cb = some c) (j : Nat) (hj : j < n) :
-    (selfControlled n s).act j = false := by
+theorem selfControlled_act (cfg : Cfg) (o : Nat) (s : St) (j : Nat) :
+    (selfControlled cfg o s).act j =
+      if s.cb o ≠ none ∧ j < cfg.n ∧ cfg.outOf j = o then false else s.act j := by
   unfold selfControlled
-  rw [h]
-  simp only
-  rw [deactivateAll_act]
-  simp [hj]
+  cases h : s.cb o with
+  | none => simp
+  | some c =>
+    simp only
+    rw [deactivateAll_act]
+    simp [mem_inputsOf]
 
 end Frappy.Control
